@@ -813,6 +813,9 @@ fn digit_lattice(rng: &mut Rng, tier: &str, emit: Emit) {
             let bits = bits_of_digits(&ds, base, len);
             let v = vec_token(ty, &bits, rng.below(2), rng.chance(1, 4));
             for k in ["d", "x", "o", "b"] {
+                // the model's decimal conversion is the crate's own O(n^2)-per-digit loop: keep the long ones few
+                if k == "d" && base != 10 && len > 130 { continue; }
+                if k == "d" && len > 200 && !rng.chance(1, 3) { continue; }
                 emit(line("fmt", &[&v, k]));
             }
         }
@@ -855,7 +858,7 @@ fn gen_c14(rng: &mut Rng, tier: &str, emit: Emit) {
             }
             let v = vec_token(ty, &bits, rng.below(2), rng.chance(1, 4));
             for k in ["b", "o", "d", "x", "X"] {
-                if k == "d" && len > 140 && !rng.chance(1, 4) { continue; }
+                if k == "d" && len > 64 && !rng.chance(1, 6) { continue; }
                 emit(line("fmt", &[&v, k]));
             }
         }
@@ -1034,7 +1037,7 @@ fn long_cases(rng: &mut Rng, fam: &str, emit: Emit) {
                         emit(line("from_bytes", &[ty.tag, &bytes_token(&bytes[..nb]), e]));
                     }
                 }
-                "C14" => { for k in ["b", "o", "x", "X"] { emit(line("fmt", &[&v, k])); } if len <= 2100 { emit(line("fmt", &[&v, "d"])); } }
+                "C14" => { for k in ["b", "o", "x", "X"] { emit(line("fmt", &[&v, k])); } if len <= 520 && ty.kind == Kind::D { emit(line("fmt", &[&v, "d"])); } }
                 "C10" => { emit(line("hash", &[&v])); }
                 "C16" => {
                     emit(line("counts", &[&v]));
@@ -1099,7 +1102,7 @@ fn with_produced(rng: &mut Rng, tier: &str, fam: &str, emit: Emit) {
             }
             "C10" => { emit(line("hash", &[&v])); }
             "C13" => { emit(line("to_vec", &[&v, if rng.chance(1, 2) { "big" } else { "little" }])); }
-            "C14" => { emit(line("fmt", &[&v, ["b", "o", "x", "X", "d"][rng.below(5)]])); }
+            "C14" => { let k = ["b", "o", "x", "X", "d"][rng.below(5)]; if k != "d" || len <= 100 || rng.chance(1, 3) { emit(line("fmt", &[&v, k])); } }
             "C06" => { emit(line(if rng.chance(1, 2) { "rotl" } else { "rotr" }, &[&v, &s(rng.below(len + 1))])); }
             "C16" => { emit(line("counts", &[&v])); }
             "C17" => { emit(line("iter", &[&v, b(rng.chance(1, 3)), "next,back,nth:1,hint,nthb:0,last"])); }
